@@ -305,3 +305,105 @@ def eval_registry(P):
     res = {'bad': bad, 'unsup': unsup, 'n': ncase, 'unregistered_rem': outcomes, 'noslots_rem': noslots, 'pending_rem': pending}
     _CACHE[id(P)] = res
     return res
+
+
+_SWEEP = {}
+
+
+def eval_sweep(P):
+    """GC_Sweep evaluated on small registries: pointers registered with the library's own insertion (home slots that collide and wrap), each
+    one a root, marked, or neither — every combination.  Required afterwards: exactly the roots and the marked pointers are still
+    registered (each findable, flags kept, marks cleared), the count matches, every other pointer was finalised exactly once (destruct,
+    then dealloc of what destruct returned) and nothing else was, the pending list was big enough for what was put on it, and it is
+    released with its length reset.
+    -> (mismatch or None, unsupported or None, cases)"""
+    if id(P) in _SWEEP:
+        return _SWEEP[id(P)]
+    fn = P.fn('GC_Sweep', required=False)
+    if fn is None or P.fn('GC_Set_Ptr', required=False) is None:
+        _SWEEP[id(P)] = (None, 'no GC_Sweep / GC_Set_Ptr', 0)
+        return _SWEEP[id(P)]
+    bad, unsup, ncase = None, None, 0
+    pats = [([0, 0, 0], [0, 1, 2]), ([4, 4, 4], [0, 1, 2]), ([3, 4, 0], [0, 1, 2]), ([0, 3, 4], [2, 1, 0]), ([4, 4, 4, 4], [0, 1, 2, 3]), ([3, 4, 3, 0], [3, 0, 2, 1]), ([0, 0, 4, 4], [2, 0, 3, 1])]
+    for homes, order in pats:
+        ptrs = [8 * (10 + k) for k in range(len(homes))]
+        hm = {p: h for p, h in zip(ptrs, homes)}
+        for kinds in itertools.product(('garbage', 'marked', 'root', 'marked root'), repeat=len(ptrs)):
+            W = GCWorld(P, hm)
+            ok = True
+            for n_, k in enumerate(order):
+                W.atoms[('elem', 'gc', 0, 'nitems')] = n_ + 1
+                r = W.run('GC_Set_Ptr', [GC, ptrs[k], int('root' in kinds[k])])
+                if r[0] != 'ret':
+                    ok = False
+            got, prob = W.read()
+            if not ok or prob:
+                unsup = unsup or 'the registry could not be built with GC_Set_Ptr (see the registry operations)'
+                continue
+            for p, k in zip(ptrs, kinds):
+                W.atoms[('elem', 'ents', got[p][2], 'marked')] = int('marked' in k)
+            state = {'cap': None, 'freed': 0}
+            W.events = []
+            W.atoms[('elem', 'gc', 0, 'freelist')] = 0
+            W.atoms[('elem', 'gc', 0, 'freenum')] = 0
+
+            def call(nm, e, it, W=W, state=state):
+                if nm == 'realloc':
+                    state['cap'] = it.ev(e[2][1]) // 8
+                    return FL
+                if nm == 'free':
+                    if it.ev(e[2][0]) == FL:
+                        state['freed'] += 1
+                        W.events.append(('free-list',))
+                    return 0
+                if nm in ('GC_Resize_Less', 'GC_Resize_More'):
+                    return 0
+                return W.call(nm, e, it)
+            it = cint.CInt(P, fn, atoms=W.atoms, call=call, recurse=True, max_steps=6000, max_depth=6, strict=True)
+            it.atoms = W.atoms
+            label = 'pointers with home slots %s, %s' % (homes, ', '.join('%s %s' % (W.name(p), k) for p, k in zip(ptrs, kinds)))
+            try:
+                r = it.run([GC])
+            except Mismatch as x:
+                bad = bad or '%s: %s' % (label, x)
+                continue
+            ncase += 1
+            if r[0] == 'stuck':
+                if r[1] == 'step bound':
+                    bad = bad or '%s: the sweep does not end' % label
+                else:
+                    unsup = unsup or '%s: %s' % (label, r[1])
+                continue
+            if r[0] != 'ret':
+                bad = bad or '%s: the sweep does not return' % label
+                continue
+            keep = {p for p, k in zip(ptrs, kinds) if k != 'garbage'}
+            got, prob = W.read()
+            if prob:
+                bad = bad or '%s: afterwards %s' % (label, prob)
+                continue
+            want = {p: (int('root' in k), 0) for p, k in zip(ptrs, kinds) if p in keep}
+            if {p: v[:2] for p, v in got.items()} != want:
+                bad = bad or '%s: afterwards the registry holds %s; the roots and marked pointers with their marks cleared are %s (pointer: root flag, mark)' % (
+                    label, {W.name(p): v[:2] for p, v in sorted(got.items())}, {W.name(p): v for p, v in sorted(want.items())})
+                continue
+            if W.atoms[('elem', 'gc', 0, 'nitems')] != len(keep):
+                bad = bad or '%s: the count is %s, %d pointers stay registered' % (label, W.atoms[('elem', 'gc', 0, 'nitems')], len(keep))
+                continue
+            des = [x[1] for x in W.events if x[0] == 'destruct']
+            dea = [x[1] for x in W.events if x[0] == 'dealloc']
+            gone = sorted(set(ptrs) - keep)
+            if sorted(des) != gone or sorted(dea) != gone:
+                bad = bad or '%s: finalises %s (destruct) / %s (dealloc); the unreachable pointers are %s' % (label, [W.name(x) if x in hm else x for x in des], [W.name(x) if x in hm else x for x in dea], [W.name(x) for x in gone])
+                continue
+            wrote = [k_[2] for k_ in W.atoms if isinstance(k_, tuple) and len(k_) == 4 and k_[0] == 'elem' and k_[1] == 'fl']
+            if wrote and (state['cap'] is None or max(wrote) >= state['cap']):
+                bad = bad or '%s: the pending list is written at index %d, %s entries were reserved for it' % (label, max(wrote), state['cap'])
+                continue
+            if gone and (state['freed'] != 1 or W.events[-1] != ('free-list',)):
+                bad = bad or '%s: the pending list is %s' % (label, 'never released' if not state['freed'] else 'released before the last pending pointer is finalised')
+                continue
+            if W.atoms[('elem', 'gc', 0, 'freenum')] != 0:
+                bad = bad or '%s: the pending list was released but its length still says %s (a later deletion walks the released list)' % (label, W.atoms[('elem', 'gc', 0, 'freenum')])
+    _SWEEP[id(P)] = (bad, unsup, ncase)
+    return _SWEEP[id(P)]
